@@ -44,6 +44,7 @@ type simGen struct {
 	calls  int
 	failed int
 	nextEven int
+	dialDelay time.Duration // AllocateConn takes this long (virtual) before the peer answers
 	made   []*genRes
 	conns []allocation.AllocateConnConfig
 }
@@ -119,6 +120,12 @@ func (g *simGen) AllocateConn(conf turn.AllocateConnConfig) (net.Conn, error) {
 	g.mu.Lock()
 	defer g.mu.Unlock()
 	g.conns = append(g.conns, conf)
+	if d := g.dialDelay; d > 0 {
+		// a slow TCP handshake; the library holds no lock while it dials
+		g.mu.Unlock()
+		time.Sleep(d + 400*time.Millisecond)
+		g.mu.Lock()
+	}
 	la, _ := conf.LocalAddr.(*net.TCPAddr)
 	ra, _ := conf.RemoteAddr.(*net.TCPAddr)
 	c, err := g.w.net.DialTCPFrom(la, ra)
